@@ -32,7 +32,7 @@ sys.path.insert(0, os.path.dirname(os.path.abspath(__file__)))
 import t8_layout  # noqa: E402
 from t8_layout import VERIF, REPO, BUILD, GEN, flags_for, write_if_changed  # noqa: E402
 
-OUT_V = os.path.join(VERIF, "coq", "Gen", "GenReset.v")
+OUT_V = os.path.join(os.environ.get("IMB_COQ_DIR") or os.path.join(VERIF, "coq"), "Gen", "GenReset.v")
 OUT_H = os.path.join(GEN, "gen_reset.h")
 
 
@@ -209,6 +209,197 @@ def if_parts(s):
     return c, a, b
 
 
+# ---- normal form of small C functions (alloc.c): single-assignment locals are replaced by their initialisers and calls of
+# small static helpers by the helper's body, so that the printed form does not depend on how the code is cut into locals
+# and helpers.  NF["fns"] = the file's functions; NF["on"] switches the mode on inside nf_of().
+NF = {"on": False, "fns": {}, "written": set(), "depth": 0, "loaded": [], "stale": False}
+
+
+def written_names(fn):
+    w = set()
+
+    def f(n):
+        k = n.get("kind")
+        if (k == "BinaryOperator" and n.get("opcode") == "=") or k == "CompoundAssignOperator" or \
+                (k == "UnaryOperator" and n.get("opcode") in ("++", "--", "&")):
+            l = strip(n["inner"][0])
+            if l.get("kind") == "DeclRefExpr":
+                w.add(l["referencedDecl"]["name"])
+    walk(fn, f)
+    return w
+
+
+def has_kind(n, kinds):
+    found = []
+    walk(n, lambda x: found.append(1) if x.get("kind") in kinds else None)
+    return bool(found)
+
+
+def reads_memory(n):
+    """does evaluating the expression read memory (other than the named variables themselves)?"""
+    bad = []
+
+    def f(x, under_addr=False):
+        k = x.get("kind")
+        if k == "UnaryOperator" and x.get("opcode") == "&":
+            sub = strip(x["inner"][0])
+            if sub.get("kind") == "ArraySubscriptExpr":
+                for c in sub["inner"]:
+                    f(c)
+                return
+        if k == "MemberExpr" or k == "ArraySubscriptExpr" or (k == "UnaryOperator" and x.get("opcode") == "*"):
+            bad.append(1)
+        for c in x.get("inner", []):
+            if isinstance(c, dict):
+                f(c)
+    f(n)
+    return bool(bad)
+
+
+def nf_block(items):
+    """canonical texts of a statement list with single-assignment locals substituted"""
+    return [t for (_, t) in nf_items(items)]
+
+
+def nf_items(items):
+    """generator of (statement node, canonical text) over a statement list, single-assignment locals substituted.  A local
+    whose initialiser reads memory stays substituted only up to and including the next statement of its block that stores
+    or calls (uses inside that statement after a store nested in it are not told apart: the one imprecision of this normal
+    form); the consumer must look at each statement before asking for the next one"""
+    loaded, stale = [], False
+    for s in items:
+        if stale:
+            for nm in loaded:
+                RENAME.pop(nm, None)
+            loaded, stale = [], False
+        if s.get("kind") == "DeclStmt" and len(s["inner"]) == 1 and s["inner"][0].get("kind") == "VarDecl":
+            d = s["inner"][0]
+            init = [c for c in d.get("inner", []) if c.get("kind") != "FullComment"]
+            if len(init) == 1 and d["name"] not in NF["written"] and \
+                    (not has_kind(init[0], ("CallExpr",)) or inlinable_call(strip(init[0])) == "expr"):
+                txt = canon(init[0])
+                if "(call " not in txt:
+                    RENAME[d["name"]] = txt
+                    if reads_memory(init[0]) or "(* " in txt or "(-> " in txt or "([] " in txt:
+                        loaded.append(d["name"])
+                    continue
+        t = canon(s)
+        if t.startswith("{") and t.endswith("}") and s.get("kind") == "CallExpr":
+            t = t[1:-1]          # body of an inlined void helper
+        if t:
+            yield (s, t)
+        if has_kind(s, ("CallExpr", "CompoundAssignOperator")) or "(= " in t or "++" in t or "--" in t:
+            stale = True      # (the statement itself was printed with the values read before it ran)
+    for nm in loaded:
+        RENAME.pop(nm, None)
+
+
+def inlinable_call(n):
+    """'expr' / 'stmt' when n is a call of a small static helper of the same file that can be replaced by its body"""
+    if n.get("kind") != "CallExpr" or not NF["on"] or NF["depth"] > 3:
+        return None
+    f = strip(n["inner"][0])
+    if f.get("kind") != "DeclRefExpr":
+        return None
+    fn = NF["fns"].get(f["referencedDecl"]["name"])
+    if fn is None or fn.get("storageClass") != "static":
+        return None
+    body = stmts(body_of(fn))
+    if len(body) > 6 or has_kind(fn, ("ForStmt", "WhileStmt", "DoStmt", "SwitchStmt", "IfStmt", "GotoStmt")):
+        return None
+    rets = [b for b in body if b.get("kind") == "ReturnStmt"]
+    if len(rets) == 1 and body[-1] is rets[0] and rets[0].get("inner"):
+        return "expr"
+    if not rets:
+        return "stmt"
+    return None
+
+
+def inline_call(n):
+    """canonical text of the helper's body with the arguments put in place of the parameters"""
+    f = strip(n["inner"][0])
+    fn = NF["fns"][f["referencedDecl"]["name"]]
+    params = [c["name"] for c in fn.get("inner", []) if c.get("kind") == "ParmVarDecl"]
+    args = [canon(a) for a in n["inner"][1:]]
+    if len(args) != len(params):
+        fail(n, "call of %s with %d arguments" % (fn["name"], len(args)))
+    saved = dict(RENAME), NF["written"]
+    RENAME.clear()
+    RENAME.update(dict(zip(params, args)))
+    NF["written"] = written_names(fn)
+    NF["depth"] += 1
+    try:
+        if NF["written"] & set(params):
+            fail(n, "helper %s assigns one of its parameters" % fn["name"])
+        body = stmts(body_of(fn))
+        if inlinable_call(n) == "expr":
+            val = None
+            for node, _ in nf_items(body):
+                if node is not body[-1]:
+                    fail(n, "helper %s does more than compute a value" % fn["name"])
+                val = canon(node["inner"][0])      # (printed while the helper's locals are substituted)
+            return val
+        return "{%s}" % "; ".join(nf_block(body))
+    finally:
+        NF["depth"] -= 1
+        RENAME.clear()
+        RENAME.update(saved[0])
+        NF["written"] = saved[1]
+
+
+def nf_of(fn, fns):
+    """normal form of a whole function body"""
+    NF.update(on=True, fns=fns, written=written_names(fn), depth=0, loaded=[], stale=False)
+    RENAME.clear()
+    try:
+        return "{%s}" % "; ".join(nf_block(stmts(body_of(fn))))
+    finally:
+        NF["on"] = False
+        RENAME.clear()
+
+
+def const_locals(fn):
+    """locals that are compile-time integer constants and never written: {name: value}"""
+    w = written_names(fn)
+    env = {}
+
+    def f(n):
+        if n.get("kind") == "VarDecl" and n["name"] not in w:
+            init = [c for c in n.get("inner", []) if c.get("kind") != "FullComment"]
+            if len(init) == 1:
+                v = fold(init[0], env)
+                if v is not None:
+                    env[n["name"]] = v
+    walk(fn, f)
+    return env
+
+
+def drop_const_decls(items, env):
+    return [s for s in items if not (s.get("kind") == "DeclStmt" and all(d.get("kind") == "VarDecl" and d["name"] in env for d in s["inner"]))]
+
+
+def cond_canon(n, env=None):
+    """an expression in condition position: `x != 0` is `x`, `x == 0` is `!x` (also under !, && and ||)"""
+    m = strip(n)
+    k = m.get("kind")
+    if k == "BinaryOperator" and m.get("opcode") in ("&&", "||"):
+        return "(%s %s %s)" % (m["opcode"], cond_canon(m["inner"][0], env), cond_canon(m["inner"][1], env))
+    if k == "UnaryOperator" and m.get("opcode") == "!":
+        t = cond_canon(m["inner"][0], env)
+        if t.startswith("(== "):
+            return "(!= " + t[4:]
+        if t.startswith("(!= "):
+            return "(== " + t[4:]
+        if t.startswith("(! "):
+            return t[3:-1]
+        return "(! %s)" % t
+    if k == "BinaryOperator" and m.get("opcode") in ("!=", "=="):
+        a, b = m["inner"]
+        if fold(b, env) == 0 or canon(b, env) == "0":
+            return cond_canon(a, env) if m["opcode"] == "!=" else "(! %s)" % cond_canon(a, env)
+    return canon(n, env)
+
+
 def canon(n, env=None):
     """compact S-expression of a statement / expression, casts and parentheses dropped, constants folded"""
     if not n:
@@ -221,6 +412,8 @@ def canon(n, env=None):
         return str(v)
     inner = [c for c in n.get("inner", []) if c.get("kind") not in ("FullComment",)]
     if k == "DeclRefExpr":
+        if env and n["referencedDecl"]["name"] in env:
+            return str(env[n["referencedDecl"]["name"]])
         return RENAME.get(n["referencedDecl"]["name"], n["referencedDecl"]["name"])
     if k == "UnaryOperator" and n.get("opcode") == "&" and strip(inner[0]).get("kind") == "ArraySubscriptExpr":
         # &p[n]  ==  p + n
@@ -238,15 +431,19 @@ def canon(n, env=None):
     if k == "UnaryOperator":
         return "(%s%s %s)" % ("post" if n.get("isPostfix") else "", n["opcode"], canon(inner[0], env))
     if k == "CallExpr":
+        if inlinable_call(n):
+            return inline_call(n)
         return "(call %s)" % " ".join(canon(c, env) for c in inner)
     if k == "UnaryExprOrTypeTraitExpr":
         return "(%s %s)" % (n["name"], canon(inner[0], env) if inner else n.get("argType", {}).get("qualType"))
     if k == "OffsetOfExpr":
         return "(offsetof)"
     if k == "CompoundStmt":
+        if NF["on"]:
+            return "{%s}" % "; ".join(nf_block([c for c in inner if c.get("kind") != "NullStmt"]))
         return "{%s}" % "; ".join(canon(c, env) for c in inner if c.get("kind") != "NullStmt")
     if k == "IfStmt":
-        return "(if %s)" % " ".join(canon(c, env) for c in inner)
+        return "(if %s %s)" % (cond_canon(inner[0], env), " ".join(canon(c, env) for c in inner[1:]))
     if k == "ReturnStmt":
         return "(return%s)" % "".join(" " + canon(c, env) for c in inner)
     if k == "DeclStmt":
@@ -265,6 +462,8 @@ def canon(n, env=None):
         return k
     if k == "DoStmt":
         return "(do %s)" % " ".join(canon(c, env) for c in inner)
+    if k == "WhileStmt":
+        return "(while %s)" % " ".join(canon(c, env) for c in inner)
     fail(n, "construct not handled by the canonical printer")
 
 
@@ -345,10 +544,11 @@ def parse_variant(vname, relfile, K, table_fields):
     iname = "init_mb_mgr_%s_internal" % vname
     if iname not in fns:
         raise T7Error("%s: %s() not found" % (relfile, iname))
-    st = stmts(body_of(fns[iname]))
+    cenv = const_locals(fns[iname])
+    st = drop_const_decls(stmts(body_of(fns[iname])), cenv)
     info = {"name": vname, "file": "lib/" + relfile, "resets": resets, "ring_reset": [], "reset_calls_reset_ooo": False}
     i = 0
-    c = canon(st[i])
+    c = canon(st[i], cenv)
     m = re.match(r"^\(if \(!= \(& \(-> state features\) (\d+)\) (\d+)\) \{\(call imb_set_errno state IMB_ERR_MISSING_CPUFLAGS_INIT_MGR\); \(return\)\}\)$", c)
     if not m or m.group(1) != m.group(2):
         fail(st[i], "%s: %s(): CPU-flag check has an unexpected shape: %s" % (relfile, iname, c[:200]))
@@ -356,7 +556,7 @@ def parse_variant(vname, relfile, K, table_fields):
     i += 1
     seen = set()
     while i < len(st):
-        c = canon(st[i])
+        c = canon(st[i], cenv)
         m = re.match(r"^\(= \(-> state used_arch\) (\w+)\)$", c)
         if m:
             info["arch"] = K[m.group(1)] if m.group(1) in K else fail(st[i], "unknown arch enumerator " + m.group(1))
@@ -369,7 +569,7 @@ def parse_variant(vname, relfile, K, table_fields):
             if len(inner) != 2:
                 fail(st[i], "%s: if (reset_mgrs) with else branch" % relfile)
             for s2 in stmts(inner[1]) if inner[1].get("kind") == "CompoundStmt" else [inner[1]]:
-                c2 = canon(s2)
+                c2 = canon(s2, cenv)
                 if c2 == "(call reset_ooo_mgrs state)":
                     info["reset_calls_reset_ooo"] = True
                     continue
@@ -382,7 +582,7 @@ def parse_variant(vname, relfile, K, table_fields):
     # everything after must be handler binding: state-><fnptr field> = <function>
     bound = []
     for s in st[i:]:
-        c = canon(s)
+        c = canon(s, cenv)
         mb = re.match(r"^\(= \(-> state (\w+)\) \w+\)$", c)
         if not mb:
             fail(s, "%s: %s(): statement after the reset block is not a handler binding: %s" % (relfile, iname, c[:200]))
@@ -410,34 +610,47 @@ def parse_variant(vname, relfile, K, table_fields):
 
 
 def parse_arch(arch, K):
+    try:
+        return _parse_arch(arch, K)
+    finally:
+        NF["on"] = False
+        RENAME.clear()
+
+
+def _parse_arch(arch, K):
     rel = "%s_t1/mb_mgr_%s.c" % (arch, arch)
     fns = ast_functions(rel)
+    NF.update(on=True, fns=fns, written=written_names(fns.get("init_mb_mgr_%s_internal" % arch, {})), depth=0, loaded=[], stale=False)
     iname = "init_mb_mgr_%s_internal" % arch
     if iname not in fns:
         raise T7Error("%s: %s() not found" % (rel, iname))
-    st = stmts(body_of(fns[iname]))
     info = {"arch": arch, "steps": [], "ladder": [], "default": None}
-    i = 0
-    if canon(st[0]).startswith("(if (== state 0) "):
-        i = 1   # SAFE_PARAM NULL check: outside the model (state is a valid manager)
-    m = re.match(r"^\(if \(!= \(& \(-> state features\) (\d+)\) (\d+)\) \{\(call imb_set_errno state IMB_ERR_MISSING_CPUFLAGS_INIT_MGR\); \(return\)\}\)$", canon(st[i]))
-    if not m or m.group(1) != m.group(2):
-        fail(st[i], "%s: minimum CPU-flag check has an unexpected shape" % rel)
-    info["req_mask"] = int(m.group(1))
-    i += 1
 
     def tier_call(c):
         m = re.match(r"^\(call init_mb_mgr_(\w+)_internal state reset_mgrs\)$", c)
         return m.group(1) if m else None
 
+    def tier_of(node):
+        th = canon(node)
+        return tier_call(th) or (re.match(r"^\{\(call init_mb_mgr_(\w+)_internal state reset_mgrs\)(; \(return\))?\}$", th) or [None, None])[1]
+
     def ladder_if(n):
-        """if ((features & M) == M) <call> [else ...]"""
+        """if ((features & M) == M) <tier> [else ...]   or   if (~features & M) <fallback> else <tier>"""
         inner = n["inner"]
-        m = re.match(r"^\(== \(& \(-> state features\) (\d+)\) (\d+)\)$", canon(inner[0]))
+        ct = cond_canon(inner[0])
+        mi = re.match(r"^\(& \(~ \(-> state features\)\) (\d+)\)$", ct)
+        if mi and len(inner) == 3 and inner[2].get("kind") != "IfStmt":
+            t, d = tier_of(inner[2]), tier_of(inner[1])
+            if not t or not d:
+                fail(n, "%s: branches of the inverted tier test are not tier calls" % rel)
+            info["ladder"].append((int(mi.group(1)), t))
+            info["default"] = d
+            return True
+        m = re.match(r"^\(== \(& \(-> state features\) (\d+)\) (\d+)\)$", ct)
         if not m or m.group(1) != m.group(2):
-            fail(n, "%s: tier test has an unexpected shape: %s" % (rel, canon(inner[0])[:160]))
+            fail(n, "%s: tier test has an unexpected shape: %s" % (rel, ct[:160]))
         th = canon(inner[1])
-        t = tier_call(th) or (re.match(r"^\{\(call init_mb_mgr_(\w+)_internal state reset_mgrs\); \(return\)\}$", th) or [None, None])[1]
+        t = tier_of(inner[1])
         if not t:
             fail(n, "%s: tier branch is not a call of init_mb_mgr_*_internal: %s" % (rel, th[:160]))
         info["ladder"].append((int(m.group(1)), t))
@@ -447,24 +660,33 @@ def parse_arch(arch, K):
             if e.get("kind") == "IfStmt":
                 ladder_if(e)
             else:
-                t2 = tier_call(canon(e))
+                t2 = tier_of(e)
                 if not t2:
                     fail(e, "%s: else branch is not a tier call" % rel)
                 info["default"] = t2
             return True
         return returns
 
-    while i < len(st):
-        c = canon(st[i])
+    first = True
+    for node, c in nf_items(stmts(body_of(fns[iname]))):
+        if first and c.startswith("(if (! state) "):
+            continue   # SAFE_PARAM NULL check: outside the model (state is a valid manager)
+        if "req_mask" not in info:
+            first = False
+            m = re.match(r"^\(if \(!= \(& \(-> state features\) (\d+)\) (\d+)\) \{\(call imb_set_errno state IMB_ERR_MISSING_CPUFLAGS_INIT_MGR\); \(return\)\}\)$", c)
+            if not m or m.group(1) != m.group(2):
+                fail(node, "%s: minimum CPU-flag check has an unexpected shape: %s" % (rel, c[:200]))
+            info["req_mask"] = int(m.group(1))
+            continue
         if c == "(call imb_set_errno state 0)":
             info["steps"].append("errno0")
         elif c == "(= (-> state features) (call cpu_feature_adjust (-> state flags) (call cpu_feature_detect)))":
             info["steps"].append("features")
-        elif st[i].get("kind") == "IfStmt":
+        elif node.get("kind") == "IfStmt":
             if info["default"]:
-                fail(st[i], "%s: statement after the default tier" % rel)
-            if not ladder_if(st[i]) and len(st[i]["inner"]) != 3:
-                fail(st[i], "%s: tier branch neither returns nor has an else" % rel)
+                fail(node, "%s: statement after the default tier" % rel)
+            if not ladder_if(node) and len(node["inner"]) != 3:
+                fail(node, "%s: tier branch neither returns nor has an else" % rel)
             if "ladder" not in info["steps"]:
                 info["steps"].append("ladder")
         elif tier_call(c):
@@ -472,8 +694,9 @@ def parse_arch(arch, K):
             if "ladder" not in info["steps"]:
                 info["steps"].append("ladder")
         else:
-            fail(st[i], "%s: %s(): statement not understood: %s" % (rel, iname, c[:200]))
-        i += 1
+            fail(node, "%s: %s(): statement not understood: %s" % (rel, iname, c[:200]))
+    if "req_mask" not in info:
+        raise T7Error("%s: %s(): no CPU-flag check" % (rel, iname))
     if not info["default"]:
         raise T7Error("%s: no default tier" % rel)
     # public init: internal(state, 1) then self test
@@ -483,10 +706,12 @@ def parse_arch(arch, K):
     pc = canon(body_of(fns[pub]))
     tail = "(if (! (call self_test state)) (call imb_set_errno state IMB_ERR_SELFTEST))}"
     plain = "{(call %s state 1); " % iname + tail
-    guarded = "{(call %s state 1); (if (|| (== state 0) (!= (-> state imb_errno) 0)) (return)); " % iname + tail
+    guarded = "{(call %s state 1); (if (|| (! state) (-> state imb_errno)) (return)); " % iname + tail
+    guarded2 = "{(call %s state 1); (if (&& state (! (-> state imb_errno))) {%s})}" % (iname, tail[:-1])
+    guarded3 = "{(call %s state 1); (if (&& state (! (-> state imb_errno))) %s)}" % (iname, tail[:-1])
     if pc == plain:
         info["guard"] = False      # self test runs whatever the internal init did
-    elif pc == guarded:
+    elif pc in (guarded, guarded2, guarded3):
         info["guard"] = True       # self test skipped when the internal init left an error code
     else:
         raise T7Error("%s: %s() is not `internal(state, 1); [if (state == NULL || state->imb_errno != 0) return;] "
@@ -548,16 +773,15 @@ def parse_alloc(lay, K):
     st = stmts(body_of(sp))
     szmgr = lay["IMB_MGR"]["size"]
     first_off = None
-    al = pointer_aliases(sp)
+    NF.update(on=True, fns=fns, written=written_names(sp), depth=0, loaded=[], stale=False)
     RENAME.clear()
-    RENAME.update(al)
 
     def arms_of(node):
         """[(enumerator, arch, k)] of `switch (used_arch) { case K: init_K_internal(mem_ptr, k); break; ... default: break; }`
         or of the equivalent chain `if (used_arch == K) init..; else if ...` without a final else that does anything"""
         cases = []
         if node.get("kind") == "SwitchStmt":
-            if canon(node["inner"][0]) not in ("used_arch", "(-> mem_ptr used_arch)"):
+            if canon(node["inner"][0]) != "(-> mem_ptr used_arch)":
                 fail(node, "switch is not on used_arch")
             body = stmts(node["inner"][1])
             j = 0
@@ -581,82 +805,77 @@ def parse_alloc(lay, K):
             if cur.get("kind") != "IfStmt":
                 fail(cur, "imb_set_pointers_mb_mgr: re-attach dispatch is neither a switch nor an if-chain")
             cnd, a, b = cur["inner"][0], cur["inner"][1], cur["inner"][2] if len(cur["inner"]) > 2 else None
-            mc = re.match(r"^\(== (?:used_arch|\(-> mem_ptr used_arch\)) (\w+)\)$", canon(cnd))
-            body = stmts(a) if a.get("kind") == "CompoundStmt" else [a]
-            m2 = re.match(r"^\(call init_mb_mgr_(\w+)_internal mem_ptr (\d+)\)$", canon(body[0])) if len(body) == 1 else None
+            mc = re.match(r"^\(== \(-> mem_ptr used_arch\) (\w+)\)$", canon(cnd))
+            body = nf_block(stmts(a) if a.get("kind") == "CompoundStmt" else [a])
+            m2 = re.match(r"^\(call init_mb_mgr_(\w+)_internal mem_ptr (\d+)\)$", body[0]) if len(body) == 1 else None
             if not mc or not m2:
                 fail(cur, "imb_set_pointers_mb_mgr: arm of the re-attach dispatch not understood: " + canon(cur)[:200])
             cases.append((mc.group(1), m2.group(1), int(m2.group(2))))
             cur = b
         return cases
 
-    for s in st:
-        c = canon(s)
-        if c == "(if (== mem_ptr 0) {(call imb_set_errno mem_ptr 12); (return 0)})":
-            continue          # NULL argument: outside the model
-        if s.get("kind") == "DeclStmt" and all(d.get("kind") == "VarDecl" and d["name"] in al for d in s["inner"]):
-            continue          # another name for mem_ptr
-        if c in ("(decl mem_size=(call imb_get_mb_mgr_size))", "(decl i)"):
-            continue
-        m = re.match(r"^\(decl free_ptr=\(\+ mem_ptr \(& \(\+ \(sizeof (struct IMB_MGR|IMB_MGR)\) (\d+)\) (-?\d+)\)\)\)$", c)
-        if m:
-            first_off = (szmgr + int(m.group(2))) & int(m.group(3))
-            continue
-        if s.get("kind") == "IfStmt" and canon(if_parts(s)[0]) == "reset_mgr":
-            _, th, el = if_parts(s)
-            if el is None or canon(th) not in ("{(call memset mem_ptr 0 mem_size)}", "(call memset mem_ptr 0 mem_size)"):
-                fail(s, "imb_set_pointers_mb_mgr: reset branch not understood: " + canon(th)[:200])
-            el = stmts(el) if el.get("kind") == "CompoundStmt" else [el]
-            if len(el) == 2 and canon(el[0]) == "(decl used_arch=(-> mem_ptr used_arch))":
-                disp = el[1]
-            elif len(el) == 1:
-                disp = el[0]
-            else:
-                fail(s, "imb_set_pointers_mb_mgr: re-attach branch not understood: " + canon(s)[:300])
-            cases = []
-            for (en, arch, k) in arms_of(disp):
-                if en not in K:
-                    fail(disp, "unknown arch enumerator " + en)
-                cases.append((K[en], arch, k))
-            steps.append(("if_reset", cases))
-            continue
-        if c == "(call imb_set_errno mem_ptr 0)":
-            steps.append(("errno0",)); continue
-        if c == "(= (-> mem_ptr flags) flags)":
-            steps.append(("flags",)); continue
-        if c == "(= (-> mem_ptr features) (call cpu_feature_adjust flags (call cpu_feature_detect)))":
-            steps.append(("features",)); continue
-        if c.startswith("(for (= i 0) _ (< i "):
-            want = "{(call set_ooo_ptr mem_ptr (. ([] ooo_mgr_table i) ooo_ptr_offset) free_ptr); (= free_ptr (+ free_ptr (. ([] ooo_mgr_table i) ooo_aligned_size)))}"
-            body = canon(s["inner"][4])
-            if body != want or "(post++ i)" not in c:
-                fail(s, "imb_set_pointers_mb_mgr: pointer loop not understood: " + body[:300])
-            steps.append(("ptrs",)); continue
-        if c == "(call set_ooo_mgr_road_block mem_ptr)":
-            steps.append(("roadblocks",)); continue
-        if c == "(return mem_ptr)":
-            continue
-        fail(s, "imb_set_pointers_mb_mgr: statement not understood: " + c[:300])
-    RENAME.clear()
+    try:
+        for s, c in nf_items(st):
+            if c == "(if (! mem_ptr) {(call imb_set_errno mem_ptr 12); (return 0)})":
+                continue          # NULL argument: outside the model
+            if c in ("(decl mem_size=(call imb_get_mb_mgr_size))", "(decl i)"):
+                continue
+            m = re.match(r"^\(decl free_ptr=\(\+ mem_ptr \(& \(\+ \(sizeof (struct IMB_MGR|IMB_MGR)\) (\d+)\) (-?\d+)\)\)\)$", c)
+            if m:
+                first_off = (szmgr + int(m.group(2))) & int(m.group(3))
+                continue
+            if s.get("kind") == "IfStmt" and canon(if_parts(s)[0]) == "reset_mgr":
+                _, th, el = if_parts(s)
+                if el is None or canon(th) not in ("{(call memset mem_ptr 0 mem_size)}", "(call memset mem_ptr 0 mem_size)"):
+                    fail(s, "imb_set_pointers_mb_mgr: reset branch not understood: " + canon(th)[:200])
+                cases, nd = [], 0
+                for dnode, _ in nf_items(stmts(el) if el.get("kind") == "CompoundStmt" else [el]):
+                    nd += 1          # (looked at while the locals read just before it are still substituted)
+                    for (en, arch, k) in arms_of(dnode):
+                        if en not in K:
+                            fail(s, "unknown arch enumerator " + en)
+                        cases.append((K[en], arch, k))
+                if nd != 1:
+                    fail(s, "imb_set_pointers_mb_mgr: re-attach branch not understood")
+                steps.append(("if_reset", cases))
+                continue
+            if c == "(call imb_set_errno mem_ptr 0)":
+                steps.append(("errno0",)); continue
+            if c == "(= (-> mem_ptr flags) flags)":
+                steps.append(("flags",)); continue
+            if c == "(= (-> mem_ptr features) (call cpu_feature_adjust flags (call cpu_feature_detect)))":
+                steps.append(("features",)); continue
+            if c.startswith("(for (= i 0) _ (< i "):
+                want = "{(= (* (+ mem_ptr (. ([] ooo_mgr_table i) ooo_ptr_offset))) free_ptr); (= free_ptr (+ free_ptr (. ([] ooo_mgr_table i) ooo_aligned_size)))}"
+                body = canon(s["inner"][4])
+                if body != want or "(post++ i)" not in c:
+                    fail(s, "imb_set_pointers_mb_mgr: pointer loop not understood: " + body[:300])
+                steps.append(("ptrs",)); continue
+            if c == "(call set_ooo_mgr_road_block mem_ptr)":
+                steps.append(("roadblocks",)); continue
+            if c == "(return mem_ptr)":
+                continue
+            fail(s, "imb_set_pointers_mb_mgr: statement not understood: " + c[:300])
+    finally:
+        NF["on"] = False
+        RENAME.clear()
     if first_off is None:
         raise T7Error("imb_set_pointers_mb_mgr: free_ptr initialisation not found")
-    # helper functions used by the steps: fixed shapes
-    expect = {
-        "set_ooo_ptr": "{(decl mgr_offset=(+ mgr offset)); (decl ptr=mgr_offset); (= (* ptr) new_ptr)}",
-        "get_ooo_ptr": "{(decl mgr_offset=(+ mgr offset)); (decl ptr=mgr_offset); (return (* ptr))}",
-        "set_road_block": "{(decl p_road_block=(+ ooo_ptr offset)); (= (* p_road_block) %d)}" % 0xDEADCAFEDEADCAFE,
-    }
-    for fn, want in expect.items():
-        got = canon(body_of(fns[fn])) if fn in fns else None
-        if got != want:
-            raise T7Error("alloc.c: %s() has an unexpected body: %s" % (fn, got))
-    got = canon(body_of(fns["set_ooo_mgr_road_block"])) if "set_ooo_mgr_road_block" in fns else ""
-    if "(call set_road_block (call get_ooo_ptr mgr (. ([] ooo_mgr_table n) ooo_ptr_offset)) (. ([] ooo_mgr_table n) road_block_offset))" not in got:
-        raise T7Error("alloc.c: set_ooo_mgr_road_block() has an unexpected body: %s" % got[:300])
-    got = canon(body_of(fns["imb_get_mb_mgr_size"])) if "imb_get_mb_mgr_size" in fns else ""
+    # the road-block loop: normal form of set_ooo_mgr_road_block() (helpers inlined, locals substituted)
+    got = nf_of(fns["set_ooo_mgr_road_block"], fns) if "set_ooo_mgr_road_block" in fns else ""
+    want = "{(= (* (+ (* (+ mgr (. ([] ooo_mgr_table n) ooo_ptr_offset))) (. ([] ooo_mgr_table n) road_block_offset))) %d)}" % 0xDEADCAFEDEADCAFE
+    DIM = "(/ (sizeof ooo_mgr_table) (sizeof ([] ooo_mgr_table 0)))"      # IMB_DIM(ooo_mgr_table): every entry
+    pre = "{(decl n); (for (= n 0) _ (< n %s) (post++ n) " % DIM
+    if not (got.startswith(pre) and got[len(pre):] == want + ")}"):
+        raise T7Error("alloc.c: set_ooo_mgr_road_block() has an unexpected body: %s" % got[:400])
+    # imb_get_mb_mgr_size(): sizeof(IMB_MGR) + sum of all aligned sizes + slack (the sum taken in either direction)
+    got = nf_of(fns["imb_get_mb_mgr_size"], fns) if "imb_get_mb_mgr_size" in fns else ""
     m = re.search(r"\(return \(\+ \(\+ \(sizeof (?:struct )?IMB_MGR\) ooo_total_size\) (\d+)\)\)", got)
-    if not m or "(= ooo_total_size (+ ooo_total_size (. ([] ooo_mgr_table i) ooo_aligned_size)))" not in got:
-        raise T7Error("alloc.c: imb_get_mb_mgr_size() has an unexpected body: %s" % got[:300])
+    acc = "(= ooo_total_size (+ ooo_total_size (. ([] ooo_mgr_table i) ooo_aligned_size)))"
+    up = "(for (= i 0) _ (< i %s) (post++ i) %s)" % (DIM, acc)
+    down = "(decl i=%s); (while (> i 0) {(post-- i); %s})" % (DIM, acc)
+    if not m or not (up in got or down in got):
+        raise T7Error("alloc.c: imb_get_mb_mgr_size() has an unexpected body: %s" % got[:400])
     slack = int(m.group(1))
     return rows, steps, first_off, slack
 
@@ -692,15 +911,33 @@ def parse_adjust(K):
     if not fn:
         raise T7Error("cpu_feature_adjust not found")
     rules = []
+    acc = None          # name of a local that collects the feature bits to clear (second accepted form)
+    ret = None
     for s in stmts(body_of(fn)):
         c = canon(s)
         m = re.match(r"^\(if \(& flags (\d+)\) \(&= features (-?\d+)\)\)$", c)
-        if m:
+        if m and acc is None:
             rules.append((int(m.group(1)), (~int(m.group(2))) & 0xFFFFFFFFFFFFFFFF))
             continue
-        if c == "(return features)":
+        m = re.match(r"^\(decl (\w+)=0\)$", c)
+        if m and acc is None and not rules:
+            acc = m.group(1)
+            continue
+        m = re.match(r"^\(if \(& flags (\d+)\) \(\|= (\w+) (\d+)\)\)$", c)
+        if m and acc is not None and m.group(2) == acc:
+            rules.append((int(m.group(1)), int(m.group(3))))
+            continue
+        if c == "(return features)" and acc is None:
+            ret = c
+            continue
+        if acc is not None and c == "(return (& features (~ %s)))" % acc:
+            ret = c
             continue
         fail(s, "cpu_feature_adjust: statement not understood: " + c[:200])
+    if ret is None:
+        raise T7Error("cpu_feature_adjust: no return of the adjusted features")
+    # clearing bits commutes: the rules are listed by flag bit so that the order of the source statements does not matter
+    rules.sort()
     return rules
 
 
@@ -755,7 +992,8 @@ def render(n, T, idx, consts):
                 fail(n, "loop index used outside a loop")
             return "%dULL" % idx
         if nm in consts:
-            return "(%s)" % consts[nm]
+            cv = consts[nm]
+            return "(%s)" % (cv if isinstance(cv, str) else render(cv, T, idx, consts))
         fail(n, "reference to %s inside a reset function" % nm)
     if k == "MemberExpr":
         return "%s%s%s" % (render(n["inner"][0], T, idx, consts), "->" if n.get("isArrow") else ".", n["name"])
@@ -800,8 +1038,11 @@ def parse_reset_fn(fn, probe, src_file):
     T = vd["type"]["qualType"].replace("*", "").strip()
     consts = {}
 
-    def tr(slist, idx_in_loop):
+    def tr(slist, idx_in_loop, base=0, fixed=None):
+        """idx_in_loop: inside `for i over the lanes` (stores are probed for lane 0 and lane 1: i = base and base + 1);
+        fixed: inside an unrolled constant-bound loop, the value of i"""
         out = []
+        i0 = fixed if fixed is not None else (base if idx_in_loop else None)
         for s in slist:
             k = s.get("kind")
             c = canon(s)
@@ -810,7 +1051,8 @@ def parse_reset_fn(fn, probe, src_file):
                     continue
                 vd2 = s["inner"][0]
                 if len(s["inner"]) == 1 and vd2.get("kind") == "VarDecl" and "const" in vd2["type"]["qualType"] and vd2.get("inner"):
-                    consts[vd2["name"]] = render([x for x in vd2["inner"] if x.get("kind") != "FullComment"][0], T, None, consts)
+                    # constant local (possibly a const pointer into the structure): rendered where it is used
+                    consts[vd2["name"]] = [x for x in vd2["inner"] if x.get("kind") != "FullComment"][0]
                     continue
                 fail(s, "%s: declaration not understood: %s" % (fn["name"], c[:200]))
             if k == "CallExpr":
@@ -820,7 +1062,7 @@ def parse_reset_fn(fn, probe, src_file):
                 byte = fold(a[2])
                 if byte is None or not 0 <= byte <= 255:
                     fail(s, "%s: memset value is not a byte constant" % fn["name"])
-                if idx_in_loop:
+                if idx_in_loop or fixed is not None:
                     fail(s, "%s: memset inside a loop" % fn["name"])
                 dst = render(a[1], T, None, consts)
                 out.append(["memset", what_of(a[1]), probe.add("(size_t)(uintptr_t)(%s)" % dst), probe.add(render(a[3], T, None, consts)), byte])
@@ -834,20 +1076,38 @@ def parse_reset_fn(fn, probe, src_file):
                     val = "lanes"
                 else:
                     val = v
-                o0 = probe.add("(size_t)(uintptr_t)&(%s)" % render(lhs, T, 0 if idx_in_loop else None, consts))
-                o1 = probe.add("(size_t)(uintptr_t)&(%s)" % render(lhs, T, 1, consts)) if idx_in_loop else None
-                w = probe.add("sizeof(%s)" % render(lhs, T, 0 if idx_in_loop else None, consts))
-                out.append(["store", what_of(lhs), o0, o1, w, val])
+                o0 = probe.add("(size_t)(uintptr_t)&(%s)" % render(lhs, T, i0, consts))
+                o1 = probe.add("(size_t)(uintptr_t)&(%s)" % render(lhs, T, base + 1, consts)) if idx_in_loop else None
+                w = probe.add("sizeof(%s)" % render(lhs, T, i0, consts))
+                out.append(["store", what_of(lhs) if fixed is None else "%s@i=%d" % (what_of(lhs), fixed), o0, o1, w, val])
                 continue
             if k == "ForStmt":
-                if idx_in_loop:
+                if idx_in_loop or fixed is not None:
                     fail(s, "%s: nested loop" % fn["name"])
                 inner = s["inner"]
-                if canon(inner[0]) != "(= i 0)" or inner[1] or canon(inner[2]) != "(< i num_lanes)" or canon(inner[3]) != "(post++ i)":
-                    fail(s, "%s: loop is not for (i = 0; i < num_lanes; i++)" % fn["name"])
+                hdr = (canon(inner[0]) if inner[0] else "_", canon(inner[2]) if inner[2] else "_", canon(inner[3]) if inner[3] else "_")
                 body = stmts(inner[4]) if inner[4].get("kind") == "CompoundStmt" else [inner[4]]
-                out.append(["for", tr(body, True)])
-                continue
+                if inner[1]:
+                    fail(s, "%s: loop with a condition variable" % fn["name"])
+                if hdr in (("(= i 0)", "(< i num_lanes)", "(post++ i)"), ("(= i 0)", "(< i num_lanes)", "(++ i)")):
+                    out.append(["for", tr(body, True)])
+                    continue
+                if hdr in (("(= i num_lanes)", "(> i 0)", "(post-- i)"), ("(= i num_lanes)", "(> i 0)", "(-- i)")):
+                    # the lanes from the top: i runs num_lanes..1 and the body must address lane i - 1; the order of the
+                    # iterations is immaterial when the bytes written by different iterations are disjoint - checked on the
+                    # probed offsets in resolve()
+                    out.append(["for", tr(body, True, base=1), "any-order"])
+                    continue
+                mlo = re.match(r"^\(= i (\d+)\)$", hdr[0])
+                mhi = re.match(r"^\((<|<=) i (\d+)\)$", hdr[1])
+                if mlo and mhi and hdr[2] in ("(post++ i)", "(++ i)"):
+                    lo, hi = int(mlo.group(1)), int(mhi.group(2)) + (1 if mhi.group(1) == "<=" else 0)
+                    if hi - lo > 64:
+                        fail(s, "%s: constant loop of more than 64 iterations" % fn["name"])
+                    for kk in range(lo, hi):
+                        out += tr(body, False, fixed=kk)
+                    continue
+                fail(s, "%s: loop is neither over the lanes (0..num_lanes-1 up, num_lanes..1 down) nor over constants: %s" % (fn["name"], " ".join(hdr)))
             if k == "IfStmt":
                 inner = s["inner"]
                 m2 = re.match(r"^\(== num_lanes (\d+)\)$", canon(inner[0]))
@@ -857,10 +1117,51 @@ def parse_reset_fn(fn, probe, src_file):
                 el = []
                 if len(inner) == 3:
                     el = stmts(inner[2]) if inner[2].get("kind") == "CompoundStmt" else [inner[2]]
-                out.append(["if", int(m2.group(1)), tr(th, idx_in_loop), tr(el, idx_in_loop)])
+                out.append(["if", int(m2.group(1)), tr(th, idx_in_loop, base, fixed), tr(el, idx_in_loop, base, fixed)])
+                continue
+            if k == "SwitchStmt":
+                # switch (num_lanes) { case K: ...; break; ... [default: break;] }  ==  if (num_lanes == K) ... else if ...
+                if canon(s["inner"][0]) != "num_lanes":
+                    fail(s, "%s: switch on something other than num_lanes" % fn["name"])
+                arms, cur = [], None
+                for cs in stmts(s["inner"][1]):
+                    ck = cs.get("kind")
+                    while ck in ("CaseStmt", "DefaultStmt"):
+                        if cur is not None:
+                            fail(cs, "%s: case falls through" % fn["name"])
+                        if ck == "CaseStmt":
+                            kv = fold(cs["inner"][0])
+                            if kv is None:
+                                fail(cs, "%s: case label is not a constant" % fn["name"])
+                            cur = [kv, []]
+                            cs = cs["inner"][-1]
+                        else:
+                            cur = [None, []]
+                            cs = cs["inner"][-1]
+                        ck = cs.get("kind")
+                    if cur is None:
+                        fail(cs, "%s: statement before the first case" % fn["name"])
+                    if ck == "BreakStmt":
+                        arms.append(cur)
+                        cur = None
+                    elif ck == "CompoundStmt" and stmts(cs) and stmts(cs)[-1].get("kind") == "BreakStmt":
+                        cur[1] += stmts(cs)[:-1]          # case K: { ...; break; }
+                        arms.append(cur)
+                        cur = None
+                    else:
+                        cur[1].append(cs)
+                if cur is not None:
+                    arms.append(cur)
+                dflt = [a for a in arms if a[0] is None]
+                if any(tr(a[1], idx_in_loop, base, fixed) for a in dflt):
+                    fail(s, "%s: default case does something" % fn["name"])
+                chain = []
+                for kv, body in reversed([a for a in arms if a[0] is not None]):
+                    chain = [["if", kv, tr(body, idx_in_loop, base, fixed), chain]]
+                out += chain
                 continue
             if k == "CompoundStmt":
-                out += tr(stmts(s), idx_in_loop)
+                out += tr(stmts(s), idx_in_loop, base, fixed)
                 continue
             if k == "DoStmt" and c in ("(do {} 0)",):
                 continue   # IMB_ASSERT compiled out
@@ -880,7 +1181,19 @@ def resolve(body, nums):
             stride = nums[s[3]] - off if s[3] is not None else 0
             out.append(dict(op="store", what=s[1], off=off, stride=stride, width=nums[s[4]], val=s[5]))
         elif s[0] == "for":
-            out.append(dict(op="for", body=resolve(s[1], nums)))
+            body = resolve(s[1], nums)
+            if len(s) > 2:
+                # iterations run in another order than 0..n-1: bytes written by different iterations must not overlap
+                st_ = [b for b in body if b["op"] == "store"]
+                if len(st_) != len(body):
+                    raise T7Error("reset loop running from the top contains something other than stores")
+                for a_ in st_:
+                    for b_ in st_:
+                        for d in range(1, 64):
+                            lo_a, lo_b = a_["off"], b_["off"] + d * b_["stride"]
+                            if a_["stride"] != b_["stride"] or (lo_a < lo_b + b_["width"] and lo_b < lo_a + a_["width"]):
+                                raise T7Error("reset loop running from the top: iterations overlap (%s / %s)" % (a_["what"], b_["what"]))
+            out.append(dict(op="for", body=body))
         elif s[0] == "if":
             out.append(dict(op="if", k=s[1], th=resolve(s[2], nums), el=resolve(s[3], nums)))
     return out
